@@ -81,9 +81,9 @@ CLAIMED = {
          'UTPM.sum(axis) addresses the coefficient axis NumPy addresses on a slice. The indexing and assignment models are validated against real NumPy / the real __setitem__ (random + exhaustive small expressions). '
          'reshape/transpose/tile/diag/tri*/trace/conj/real/imag/fft/zeros/ones/symvec/vecsym, write-through and shares_memory are checked slice-wise against NumPy (partial: no theorem).')),
  'C09': dict(
-   technique='Lean 4 theorems (extraction algebra and seed tables of the Hessian / Hessian-vector drivers for every N) + exact analytic oracle on polynomial programs',
+   technique='Lean 4 theorems (extraction algebra and seed tables for every N; program-level Taylor coefficients along a line = gradient / Hessian forms for every C^2 function) + exact analytic oracle on polynomial programs',
    text=('Theorems for every N and every symmetric H: 2 c2(e_n) = H_nn, c2(e_n+e_m) - c2(e_n) - c2(e_m) = H_nm, -c2(e_n) + c2(v+e_n) - c2(v) = (Hv)_n (the formulas of extract_hessian / extract_hess_vec); the triangular '
-         'seed layout of init_hessian (N(N+1)/2 directions, e_n at n(n+1)/2, e_n+e_m at (n+1)(n+2)/2-m-1) and the 2N+1 directions of init_hess_vec are proved for every N (and every v); tensors rest on C15; that c2 of a program is v^T Hess f v / 2 is not formalised (partial). Seed tables and extraction formulas of the real code are compared '
+         'seed layout of init_hessian (N(N+1)/2 directions, e_n at n(n+1)/2, e_n+e_m at (n+1)(n+2)/2-m-1) and the 2N+1 directions of init_hess_vec are proved for every N (and every v); tensors rest on C15. Program level, for every F: R^N -> R that is C^2 at x (multivariate calculus in Mathlib): the Taylor coefficients of t -> F(x + t v) are c1 = grad F . v and c2 = v^T Hess F v / 2 with the symmetric Hessian, so extract_jacobian / extract_jac_vec / extract_hessian / extract_hess_vec return the true partial derivatives (program_jacobian, program_jac_vec, program_hessian_diag, program_hessian_offdiag, program_hess_vec; utp_second_coefficient composes with the JetOf closure of C01); init_tensor/extract_tensor beyond order 2 have no program-level theorem (partial). Seed tables and extraction formulas of the real code are compared '
          'with the model for every N up to 6/9; polynomial programs are compared with exact analytic derivatives (Jacobian, Jv, Hessian, Hv, all d-th order partials, d<=4) and smooth programs with Taylor propagation along arbitrary directions.')),
  'C07': dict(
    technique='Lean 4 theorems over any non-commutative ring (matrix Taylor kernels solve A*inv(A)=I and A*X=B order by order) + exact correspondence + residual / independent-formula oracles',
